@@ -12,6 +12,18 @@ def main():
     core.build_binary()
     bad = []
     for f in sorted(glob.glob(os.path.join(SPEC, "*.tla"))):
+        if "EXTENDS Integers, Sequences, Apalache" in open(f).read():
+            # typed modules for Apalache are parsed and type-checked by Apalache itself
+            import shutil
+            import tempfile
+            d = tempfile.mkdtemp(prefix="apa_", dir=core.workdir("setup"))
+            shutil.copy(f, d)
+            p = subprocess.run(["timeout", "600", "apalache-mc", "typecheck", "--out-dir=" + os.path.join(d, "out"), os.path.basename(f)],
+                               cwd=d, stdout=subprocess.PIPE, stderr=subprocess.STDOUT, text=True)
+            shutil.rmtree(os.path.dirname(d), ignore_errors=True)
+            if "Type checker [OK]" not in p.stdout and "EXITCODE: OK" not in p.stdout:
+                bad.append(os.path.basename(f))
+            continue
         p = subprocess.run(["tla-sany", os.path.basename(f)], cwd=SPEC, stdout=subprocess.PIPE,
                            stderr=subprocess.STDOUT, text=True)
         if p.returncode != 0 or "*** Errors" in p.stdout or "Could not parse" in p.stdout:
